@@ -291,7 +291,15 @@ const TABLES: [&str; 3] = [
 ];
 
 /// (model, invocable, input context template; `$X` is replaced by the input variant of the operation)
-const MODEL_CALLS: [(&str, &str, &str); 16] = [
+const MODEL_CALLS: [(&str, &str, &str); 24] = [
+  ("gen", "tp", "{x: $X, s: \"p$X\"}"),
+  ("gen", "to", "{x: $X, s: \"o$X\"}"),
+  ("gen", "tr", "{x: $X, s: \"r$X\"}"),
+  ("gen", "tcnt", "{x: $X, s: \"c$X\"}"),
+  ("gen", "tmin", "{x: $X, s: \"m$X\"}"),
+  ("gen", "tdef", "{x: $X, s: \"d$X\"}"),
+  ("gen", "tany", "{x: $X, s: \"a$X\"}"),
+  ("gen", "tfirst", "{x: $X, s: \"f$X\"}"),
   ("gen", "c4", "{x: $X, s: \"ab$X_34\"}"),
   ("gen", "svc", "{x: $X, s: \"q$X_2\"}"),
   ("gen", "tbl", "{x: $X, s: \"ab\"}"),
